@@ -27,6 +27,9 @@ Tokens == {"https", "http", "js",      \* "https:"  "http:"  "javascript:" (a no
            "good",                     \* one of the deployment's hosts, e.g. batch.hail.test
            "evil",                     \* a host name that is not one of them, e.g. evil.com, batch.hail.test.evil.com
            "digit",                    \* one decimal digit (1 or 2)
+           "pct",                      \* a percent-encoded delimiter (%2F %23 %3F %40 %3A %5C): an ordinary character for both parsers
+                                       \* wherever it stands, except that the browser's host parser percent-decodes the host and
+                                       \* then finds a forbidden host code point (failure)
            "tab",                      \* ASCII tab or newline: removed everywhere by both parsers
            "sp"}                       \* space or another C0 control: stripped at the ends only
 Core   == {"https", "ss", "s", "bs", "at", "dot", "good", "evil"}
@@ -78,7 +81,7 @@ IPv4Ok(h) == /\ \A i \in 1 .. Len(h) : h[i] \in {"digit", "dot"}
                    ~((\A m \in j .. (j + 3) : h[m] = "digit") /\ h[j + 4] = "dot")
 HostClass(h) ==
   IF h = <<>> THEN "fail"                                      \* host-missing
-  ELSE IF \E i \in 1 .. Len(h) : h[i] = "sp" THEN "fail"       \* forbidden host code point
+  ELSE IF \E i \in 1 .. Len(h) : h[i] \in {"sp", "pct"} THEN "fail"   \* forbidden host code point (for pct: after percent-decoding)
   ELSE IF h = <<"good">> \/ h = <<"good", "dot">> THEN "good"  \* the FQDN with a trailing dot is the same machine
   ELSE IF EndsInNumber(DropDot(h)) THEN (IF IPv4Ok(DropDot(h)) THEN "other" ELSE "fail")
   ELSE "other"                                                 \* some other domain
@@ -207,10 +210,10 @@ IdleNext == UNCHANGED vars
 FullLen == atoi(IOEnv.NU_FULL)
 CoreLen == atoi(IOEnv.NU_CORE)
 \* TLC refuses sets of more than 1,000,000 elements, so the universe is written in two parts, and at length 5
-\* (16^5 > 10^6) the token "q" is left out of the full alphabet: "?" and "#" end the authority for both parsers
+\* (16^5 > 10^6) the tokens "q" and "pct" are left out of the full alphabet: "?" and "#" end the authority for both parsers
 \* alike and "q" stays in every shorter word.
 FullWords == Words(Tokens, IF FullLen < 4 THEN FullLen ELSE 4)
-             \cup UNION { [1 .. k -> Tokens \ {"q"}] : k \in 5 .. FullLen }
+             \cup UNION { [1 .. k -> Tokens \ {"q", "pct"}] : k \in 5 .. FullLen }
 CoreWords == Words(Core, CoreLen)
 Inputs    == IF IOEnv.NU_PART = "full" THEN FullWords ELSE CoreWords \ FullWords
 Gen == ndJsonSerialize(IOEnv.NU_INPUTS, SetToSeq({ [w |-> x] : x \in Inputs }))
